@@ -134,6 +134,10 @@ def credentials():
           ('cert', 'k1', 'ca1', 'host', 0, far, ('other.example',), False),
           ('cert', 'k1', 'ca1', 'host', 0, far, (), False),
           ('cert', 'k1', 'ca1', 'host', 0, far, ('x', HOST), False),
+          # principals naming the address the connection lands on (or a wildcard text), not the host asked for
+          ('cert', 'k1', 'ca1', 'host', 0, far, (ADDR,), False),
+          ('cert', 'k1', 'ca1', 'host', 0, far, ('other.example', ADDR), False),
+          ('cert', 'k1', 'ca1', 'host', 0, far, ('*.example',), False),
           ('cert', 'k1', 'ca1', 'user', 0, far, (HOST,), False),
           ('cert', 'k1', 'ca2', 'host', 0, far, (HOST,), False),
           ('cert', 'k2', 'ca1', 'host', 0, far, (HOST,), False),
